@@ -1424,11 +1424,11 @@ impl SubRule {
                             }
                             last_pos = sp;
                             debug_assert!(res_word.in_bounds(sp));
+                            let old_len = res_word.seg_length_at(sp);
                             let lc = self.apply_seg_mods(&mut res_word, sp, m, v, out_state.position)?;
                             total_len_change[sp.syll_index] += lc;
-                            if lc > 0 {
-                                last_pos.seg_index += lc.unsigned_abs() as usize;
-                            }
+                            // move to the last copy of the (possibly resized) run, so that the search does not resume inside it
+                            last_pos.seg_index += (old_len as isize + lc as isize - 1).max(0) as usize;
                             if self.input.len() == self.output.len() {
                                 if state_index < self.input.len() -1 {
                                     last_pos.seg_index +=1;
